@@ -372,6 +372,13 @@ int pcp_sendfile(struct pcp_client *pcp, char *file, char *output_file)
     return result;
 }
 
+static int _pcp_isdir (const char *file)
+{
+	struct stat sb;
+	return (stat (file, &sb) == 0 && S_ISDIR (sb.st_mode));
+}
+
+/* returns 1 if `pf' is a directory the target did not accept, else 0 */
 static int _pcp_sendfile (struct pcp_filename *pf, struct pcp_client *pcp)
 {
 	char *output_filename = NULL;
@@ -396,7 +403,9 @@ static int _pcp_sendfile (struct pcp_filename *pf, struct pcp_client *pcp)
 		xstrcat(&output_filename, pcp->host);
 	}
 
-	pcp_sendfile (pcp, pf->filename, output_filename);
+	if (!pcp_sendfile (pcp, pf->filename, output_filename)
+	    && _pcp_isdir (pf->filename))
+		return (1);
 
 	return (0);
 }
@@ -407,8 +416,19 @@ int pcp_client(struct pcp_client *pcp)
     if (pcp_response(pcp->infd, pcp->host) >= 0) {
         struct pcp_filename *pf;
         ListIterator i = list_iterator_create (pcp->infiles);
-        while ((pf = list_next (i)))
-            _pcp_sendfile (pf, pcp);
+        int skip = 0;   /* depth inside a directory the target refused */
+        while ((pf = list_next (i))) {
+            if (skip > 0) {
+                /* do not send its entries, nor its exit-subdir flag */
+                if (!pf->file_specified_by_user
+                    && strcmp (pf->filename, EXIT_SUBDIR_FILENAME) == 0)
+                    skip--;
+                else if (_pcp_isdir (pf->filename))
+                    skip++;
+                continue;
+            }
+            skip = _pcp_sendfile (pf, pcp);
+        }
         list_iterator_destroy (i);
         return 0;
     }
